@@ -45,6 +45,15 @@ fn main() -> ExitCode {
             let dump = arg_after(&args, "--dump-index").and_then(|s| s.parse().ok());
             ExitCode::from(lsv_core::checks::matrix::digest_command(seed, count, &out, dump) as u8)
         }
+        "decode" => {
+            // raw fuzz input -> replay document in the IR format
+            let data = std::fs::read(&args[2]).unwrap_or_default();
+            let h = lsv_core::generate::bytes::decode_history(&data, 48);
+            let prop = args.get(3).cloned().unwrap_or_else(|| "C03".into());
+            println!("{}", serde_json::json!({"property": prop, "engine": "fuzz_history", "case": lsv_core::checks::common::history_value(&h),
+                "failure": {"oracle": format!("{prop}.sanitizer"), "step": 0, "detail": "AddressSanitizer report or crash under the fuzz target"}}));
+            ExitCode::SUCCESS
+        }
         "replay" => {
             let code = lsv_core::checks::replay::replay_file(&args[2]);
             ExitCode::from(code as u8)
